@@ -238,8 +238,14 @@ def main():
                 plants.append('pc=%d breg=0 oreg=0 areg=3735928559' % pc)
                 plants.append('pc=%d breg=%d oreg=0 areg=0' % (pc, (1 << 32) - 1))
         rng.shuffle(plants)
-        for desc in plants[:nplant]:
-            for seed in (1, 2):
+        # the hidden "previous clock / previous reset" copies of the two always_ff blocks are part of the power-on state:
+        # plant every combination of the clock copies (is the time-1 edge seen by the processor / by the memory?) and
+        # two of the reset copies
+        hidden = ['pclk=%d mclk=%d prst=%d mrst=%d' % (pc_, mc_, pr_, mr_) for pc_ in (0, 1) for mc_ in (0, 1) for pr_, mr_ in ((0, 0), (1, 1))]
+        for desc0 in plants[:nplant]:
+            for hid in (hidden if ck.thorough() else rng.sample(hidden, 4)):
+                desc = desc0 + ' ' + hid
+                seed = 1
                 rc, o, e = run3([tbh, b, str(seed), '400000'] + desc.split(), cwd=d, stdin=open(ip, 'rb'), timeout=120)
                 judge('planted', 'seed=%d %s' % (seed, desc), parse_h(o))
                 rc, o, e = run3([tbh, b, str(seed), '0', 'probe=1'] + desc.split(), cwd=d, stdin=open(ip, 'rb'), timeout=120)
